@@ -9,7 +9,11 @@ from vh import gen as G
 from fparser.two import utils as U
 from fparser.common.readfortran import FortranStringReader
 
-_CNT = [0, None]
+_CNT = [0, None, 10 ** 9]
+
+
+class _TooMany(BaseException):
+    pass
 
 
 def _install_counter():
@@ -18,6 +22,8 @@ def _install_counter():
 
         def counting(cls, *a, **k):
             _CNT[0] += 1
+            if _CNT[0] > _CNT[2]:
+                raise _TooMany()
             return orig(cls, *a, **k)
         U.Base.__new__ = counting
         _CNT[1] = orig
@@ -77,11 +83,17 @@ def meta(tier):
                 budget_s=400 if q else 3300, unit_budget_s=120 if q else 900, witness_every=5)
 
 
-def _attempts(src, std):
+def _attempts(src, std, cap):
     C.reset()
     p = C.get_parser(std)
     _CNT[0] = 0
-    r = C.outcome(lambda: p(FortranStringReader(src)))
+    _CNT[2] = cap
+    try:
+        r = C.outcome(lambda: p(FortranStringReader(src, ignore_comments=("!" not in src))))
+    except _TooMany:
+        r = ("cut off at %d attempts" % cap,)
+    finally:
+        _CNT[2] = 10 ** 9
     return _CNT[0], r[0]
 
 
@@ -96,8 +108,9 @@ def grow(ctx):
         L = []
         v = G.fresh_name(ctx, "v", 2)
     f = FAMILIES[p["fam"]]
-    c1, o1 = _attempts(f(n, L, v), p["std"])
-    c2, o2 = _attempts(f(2 * n, L, v), p["std"])
+    cap = 20 * (400 + 600 * 4 * n * n)
+    c1, o1 = _attempts(f(n, L, v), p["std"], cap)
+    c2, o2 = _attempts(f(2 * n, L, v), p["std"], cap)
     ctx.observe("counts", [c1, c2, o1, o2])
     tag = " [%s]" % p["fam"]
     ctx.check(c2 <= 4 * c1 + 300, "rule-matching attempts grow faster than quadratically when the size doubles" + tag)
